@@ -156,7 +156,14 @@ def handleDiff (toks0 : List String) : Option String :=
         | some a =>
           let rs := a.getD []
           if reported rs new == new.filter (fun l => !old.contains l) && unreported rs new == new.filter (fun l => old.contains l)
-          then some "ok" else some "bad C17:reported-lines-differ-from-inserted-and-modified-lines"
+          then some "ok"
+          else
+            -- a reported line that stands in the old file is a tracking point without a change (C09);
+            -- a line of the new file that is absent from the old one and is not reported is a miss (C04)
+            let over := (reported rs new).any (fun l => old.contains l)
+            let miss := (unreported rs new).any (fun l => !old.contains l)
+            some ("bad C17:reported-lines-differ-from-inserted-and-modified-lines" ++
+              (if over then " C09:unchanged-line-reported" else "") ++ (if miss then " C04:changed-line-not-reported" else ""))
         | none => some "error answer"
       | _ => some "error parse"
     | none => some "error parse"
